@@ -99,7 +99,11 @@ static void observe(Inst& m) {
 #if PAYLOAD
   rec(m.previousTransition().payload() ? (m.previousTransition().payload()->v & 0xFF) : 0xAA);
 #endif
-  { int n = 0; auto pl = m.plan(); for (auto it = pl.begin(); it; ++it) { rec(0xC0 + it->origin * 4 + it->destination); if (++n > CAP) break; } rec(0xD0 + n); }
+  { int n = 0; auto pl = m.plan(); for (auto it = pl.begin(); it; ++it) { rec(0xC0 + it->origin * 4 + it->destination);
+#if PAYLOAD
+      rec(it->payload() ? (0x100 + (it->payload()->v & 0x7F)) & 0xFF : 0xAB);
+#endif
+      if (++n > CAP) break; } rec(0xD0 + n); }
   { Inst::SerialBuffer b; const Inst& cm = m; cm.save(b); rec(b.data()[0]); }
 }
 
